@@ -34,7 +34,7 @@ for h, rec in zip(hs, outs):
             fn = 'run_remove'
         else:
             lines = [ln.split('\t') for ln in addmodel.ili_lines(op[1])]
-            inp, exp = addmodel.ili_case(before, lines, st['after'], st['outcome'])
+            inp, exp = addmodel.ili_case_lines(before, lines, st['after'], st['outcome'])
             fn = 'run_add_ili'
         with open(os.path.join(outdir, 'case_%d_%d.v' % (seed, k)), 'w') as fh:
             fh.write('From Coq Require Import ZArith List.\nImport ListNotations.\nRequire Import WnV.Base.Sx.\n'
